@@ -667,6 +667,10 @@ impl StringLiteralToken<&str> {
         let mut segments = Vec::new();
 
         let chars = self.0.chars().collect::<Vec<_>>();
+        // byte offset of every character index (and of the end), so that spans are byte ranges
+        let mut byte_at = self.0.char_indices().map(|(i, _)| i).collect::<Vec<_>>();
+        byte_at.push(self.0.len());
+        let byte = |i: usize| byte_at[i.min(chars.len())];
         let mut template = false;
         let mut current = String::new();
 
@@ -679,7 +683,8 @@ impl StringLiteralToken<&str> {
                         let seg = std::mem::take(&mut current);
                         segments.push(StringSegment::Template(
                             seg.trim().to_string(),
-                            Span::new(pos - seg.chars().count() - 1, pos + 3) + span.start(),
+                            Span::new(byte(pos - seg.chars().count() - 2) + 1, byte(pos + 2) + 1)
+                                + span.start(),
                         ));
                     }
                     template = false;
@@ -707,7 +712,8 @@ impl StringLiteralToken<&str> {
                         let seg = std::mem::take(&mut current);
                         segments.push(StringSegment::Literal(
                             unescape_string_literal(&seg),
-                            Span::new(pos - seg.chars().count() + 1, pos + 1) + span.start(),
+                            Span::new(byte(pos - seg.chars().count()) + 1, byte(pos) + 1)
+                                + span.start(),
                         ));
                     }
                     template = true;
@@ -723,7 +729,7 @@ impl StringLiteralToken<&str> {
         if !template && !current.is_empty() {
             segments.push(StringSegment::Literal(
                 unescape_string_literal(&current),
-                Span::new(pos - current.chars().count() + 1, pos + 1) + span.start(),
+                Span::new(byte(pos - current.chars().count()) + 1, byte(pos) + 1) + span.start(),
             ));
         }
 
